@@ -23,8 +23,12 @@ TIERS = {
                  "unif_R": 200000},
 }
 UNIF = {"quick": (12, 20000), "thorough": (60, 200000)}
+TAIL = {"quick": 10, "thorough": 60}  # runs U..U+T-1: exact-tail uniformity tests (Fisher-combined hypergeometric p-values)
+TAIL_LEVEL = 1e-13
 LEVEL = 1e-12
-RULE = ("runs 0..U-1 are uniformity runs (U=12 quick / 60 thorough): R=20000/200000 draws of subsample or downsample "
+RULE = ("runs U..U+T-1 (T=10 quick / 60 thorough) are exact-tail runs: r draws of one configuration (small: r=400; deep repertoires "
+        "with totals up to 4e6: r=4), per category and direction the hypergeometric tail p-values are Fisher-combined and compared "
+        "with 1e-13. runs 0..U-1 are uniformity runs (U=12 quick / 60 thorough): R=20000/200000 draws of subsample or downsample "
         "for one fixed configuration, statistics vs exact hypergeometric marginals, Hoeffding bound at 1e-12 per "
         "statistic (< 1e4 statistics => total false-alarm probability < 1e-8). Other runs: pipeline of 4-10 ops "
         "(subsample, downsample on list/ndarray/Series/DataFrame, powerlaw_sample, powerlaw_mle_alpha on the "
@@ -41,7 +45,8 @@ COMPONENTS = {
 ASSUMPTIONS = [
     "randomness is drawn from NumPy's legacy global generator (np.random.*); a refactor to another generator is "
     "still checked by the invariants, and boundary_draw_used then stays 0 and nothing is asserted about boundary draws",
-    "uniformity: Hoeffding two-sided bound at 1e-12 per statistic, Bonferroni over < 1e4 statistics",
+    "uniformity: Hoeffding two-sided bound at 1e-12 per statistic, Bonferroni over < 1e4 statistics; exact-tail runs: Fisher's "
+    "method on scipy.stats.hypergeom log-tails (conservative for discrete p-values), level 1e-13 per statistic",
     "'exact' fit: discrete power-law log-likelihood is concave in alpha, so 'maximiser within bounds' is checked as "
     "L(x*) >= L(x* +- 1e-3) (clipped sides skipped) with an independent Hurwitz-zeta (Euler-Maclaurin)",
     "the powerlaw_mle_alpha closed forms are deterministic; they add no simulation content and are only evaluated along the way",
@@ -54,6 +59,9 @@ ASSUMPTIONS = [
 # generation
 # ---------------------------------------------------------------------------------------------
 def gen_counts(rng):
+    if rng.random() < 0.02:  # deep repertoires: conservation laws on large totals
+        L = rng.randint(1, 5)
+        return [rng.choice([0, 3, 2000, 10 ** 5, 4 * 10 ** 5, 10 ** 6]) for _ in range(L)]
     L = rng.randint(1, 12)
     hi = rng.choice([1, 2, 5, 30])
     c = [rng.randint(0, hi) for _ in range(L)]
@@ -140,11 +148,41 @@ def unif_config(rng, R):
             "container": rng.choice(["list", "ndarray", "series", "dataframe"]), "R": R, "rng_seed": rng.getrandbits(32)}
 
 
+def tail_config(rng, big):
+    if big:
+        while True:
+            L = rng.randint(2, 6)
+            counts = [rng.choice([10 ** 6, 5 * 10 ** 5, 3 * 10 ** 5, 2000, 300, 40, 3, 0]) for _ in range(L)]
+            if rng.random() < 0.75:
+                counts[rng.randrange(L)] = rng.choice([10 ** 6, 2 * 10 ** 6])
+            rng.shuffle(counts)
+            total = sum(counts)
+            if total >= 10 ** 5:
+                break
+        n = rng.choice([total // 4, total // 5, total // 10, 10 ** 5, 1000, total // 3])
+        n = max(1, min(n, total - 1))
+        r = 4
+    else:
+        while True:
+            L = rng.randint(3, 12)
+            counts = [rng.choice([0, 1, 2, 5, 9, 20, 60]) for _ in range(L)]
+            total = sum(counts)
+            if total >= 4:
+                break
+        n = rng.randint(1, total - 1)
+        r = 400
+    return {"op": "tailtest", "counts": counts, "n": n, "r": r, "rng_seed": rng.getrandbits(32),
+            "container": rng.choice(["list", "ndarray"])}
+
+
 def generate(seed, tier, index=0):
     rng = random.Random(seed)
     U, R = UNIF[tier]
     if index < U:
         return {"property": PROP, "seed": seed, "tier": tier, "swarm": {"kind": "uniformity"}, "ops": [unif_config(rng, R)]}
+    if index < U + TAIL[tier]:
+        return {"property": PROP, "seed": seed, "tier": tier, "swarm": {"kind": "tailtest"},
+                "ops": [tail_config(rng, big=(index - U) % 2 == 0)]}
     sw = {
         "kind": "pipeline",
         "ops": rng.choice([["subsample"], ["downsample"], ["powerlaw_sample", "powerlaw_mle_alpha"],
@@ -328,6 +366,18 @@ def execute(trace, ctx=None):
                 break
             continue
 
+        if kind == "tailtest":
+            violation, info = run_tailtest(op, step, st)
+            stats["tailtest_runs"] += 1
+            stats["tailtest_big"] += sum(op["counts"]) > 10 ** 6
+            stats["uniformity_statistics"] += info["statistics"]
+            stats["random_draws"] += op["r"]
+            log.append(["tailtest", info["digest"]])
+            shape.append(["tailtest", op["counts"], op["n"], op["r"]])
+            nontrivial = True
+            if violation:
+                break
+            continue
         np.random.seed(op["rng_seed"])
         random.seed(op["rng_seed"])
         if kind == "subsample":
@@ -651,6 +701,55 @@ def run_uniformity(op, step, st, dist):
     return viol, {"statistics": nstat, "digest": dg}
 
 
+def run_tailtest(op, step, st):
+    """r draws of one configuration; per category and direction the exact hypergeometric tail p-values of the kept
+    counts are combined by Fisher's method (conservative for discrete p-values) and compared with TAIL_LEVEL."""
+    import numpy as np
+    from scipy.stats import chi2, hypergeom
+
+    counts, n, r = op["counts"], op["n"], op["r"]
+    N = sum(counts)
+    L = len(counts)
+    np.random.seed(op["rng_seed"])
+    arg = np.array(counts) if op.get("container") == "ndarray" else list(counts)
+    lo = [0.0] * L
+    hi = [0.0] * L
+    kept_sum = [0] * L
+    for _ in range(r):
+        idx, cnt = st.subsample(arg, n)
+        k = [0] * L
+        for i, c in zip(np.asarray(idx).tolist(), np.asarray(cnt).tolist()):
+            if 0 <= i < L:
+                k[i] += int(c)
+        for i in range(L):
+            if counts[i] == 0:
+                if k[i]:
+                    return ({"oracle": "count_exceeds_original", "op": "subsample", "step": step,
+                             "detail": "subsample(%r, %d): category %d has count 0 but %d items were kept" % (counts, n, i, k[i])},
+                            {"statistics": 0, "digest": "x"})
+                continue
+            kept_sum[i] += k[i]
+            ki = min(k[i], counts[i], n)
+            lp_lo = float(hypergeom.logcdf(ki, N, counts[i], n))
+            lp_hi = float(hypergeom.logsf(ki - 1, N, counts[i], n))
+            lo[i] += -2.0 * max(lp_lo, -700.0)
+            hi[i] += -2.0 * max(lp_hi, -700.0)
+    viol = None
+    nstat = 0
+    for i in range(L):
+        if counts[i] == 0:
+            continue
+        for name, stat in (("too few", lo[i]), ("too many", hi[i])):
+            nstat += 1
+            p = float(chi2.sf(stat, 2 * r))
+            if p < TAIL_LEVEL and viol is None:
+                viol = {"oracle": "uniformity", "op": "subsample", "step": step,
+                        "detail": "subsample(%r, %d) over r=%d draws keeps %s items of category %d (count %d): %d kept in total, expected %.2f; "
+                                  "Fisher-combined exact hypergeometric tail probability %.3g < %.0e" % (
+                                      counts, n, r, name, i, counts[i], kept_sum[i], r * n * counts[i] / N, p, TAIL_LEVEL)}
+    return viol, {"statistics": nstat, "digest": digest(kept_sum)}
+
+
 # ---------------------------------------------------------------------------------------------
 # minimisation support
 # ---------------------------------------------------------------------------------------------
@@ -667,7 +766,7 @@ def _rep(trace, i, **ch):
 def candidates(trace):
     for i, op in enumerate(trace["ops"]):
         k = op["op"]
-        if k == "uniformity":
+        if k in ("uniformity", "tailtest"):
             continue
         if op.get("extreme"):
             yield _rep(trace, i, extreme=None)
